@@ -8,7 +8,17 @@
      written as a plain sum; `address + amount` with caller-supplied amount is the
      checked addition of the repaired code (fix 2a0d67f);
    - slice indexing that would panic in Rust is [Panic PIndex], so "never panics" is a
-     theorem about the guards and not true by construction. *)
+     theorem about the guards and not true by construction;
+   - pointer TARGETS are caller-supplied usize values that nothing validates (write_pointer), so
+     `destination + count` in allocate is NOT a plain sum: [allocate] carries the representability
+     check of the repaired code (fix 0edd128: new size <= isize::MAX, every target that moves stays
+     below 2^64, else Err EOob before anything is changed), and [allocate_m] is the same function
+     in machine arithmetic ([add_w 64] on every key and target, Checked/Wrapping) in the statement
+     order of the code (checks, splice of the data, relocation of the maps) returning the archive
+     the caller is left with; Proofs/BinRelocate.v proves the two equal (no panic, no wrapped value,
+     and a rejected request leaves the archive as it was) for archives whose annotation KEYS (cells,
+     label addresses) are <= size - which holds after every history of API calls
+     (Proofs/BinKeysInvariant.v): keys are validated against the size when written. *)
 From Coq Require Import List NArith ZArith Bool.
 From Mila Require Import Lib.Bytes Lib.Machine.
 Import ListNotations.
@@ -210,8 +220,10 @@ Definition write_label (a : archive) (address : N) (l : bytes) : outcome archive
 Definition adjust_pointer (pointer address count : N) (subtract : bool) : N :=
   if address <=? pointer then (if subtract then pointer - count else pointer + count) else pointer.
 (* the comparison used for labels and pointer destinations *)
+(* `pointer > address || (pointer >= address && ge)` *)
+Definition moves (pointer address : N) (ge : bool) : bool := orb (address <? pointer) (andb (address <=? pointer) ge).
 Definition adjust_dest (pointer address count : N) (subtract ge : bool) : N :=
-  if orb (address <? pointer) (andb (address <=? pointer) ge)
+  if moves pointer address ge
   then (if subtract then pointer - count else pointer + count) else pointer.
 Definition in_range (address count x : N) : bool := andb (address <=? x) (x <? address + count).
 
@@ -234,10 +246,24 @@ Definition filter_cstrs (p : N -> bool) (c : list (bytes * list N)) : list (byte
 Definition allocate_at_end (a : archive) (amount : N) : archive :=
   set_data a (a_data a ++ zeros (N.to_nat amount)).
 
-Definition allocate (a : archive) (address amount : N) (ge : bool) : outcome archive :=
+Definition ISIZE_MAX : N := 2 ^ 63 - 1.
+(* the representability check of allocate (fix 0edd128), evaluated before anything is changed:
+     self.size().checked_add(amount).map_or(false, |new_size| new_size <= isize::MAX as usize)
+     && self.pointers.values().all(|d| !(moves d) || d.checked_add(amount).is_some()) *)
+Definition allocate_fits (a : archive) (address amount : N) (ge : bool) : bool :=
+  andb (match checked_add64 (size a) amount with Some new_size => new_size <=? ISIZE_MAX | None => false end)
+       (forallb (fun p => orb (negb (moves (snd p) address ge))
+                              (match checked_add64 (snd p) amount with Some _ => true | None => false end))
+                (a_ptrs a)).
+
+Definition allocate_checks (a : archive) (address amount : N) (ge : bool) : outcome unit :=
   _ <- validate_address address (size a) true ;;
   _ <- validate_alignment address 4 ;;
   _ <- validate_alignment amount 4 ;;
+  guard (allocate_fits a address amount ge) EOob.
+
+Definition allocate (a : archive) (address amount : N) (ge : bool) : outcome archive :=
+  _ <- allocate_checks a address amount ge ;;
   let d := firstn (N.to_nat address) (a_data a) ++ zeros (N.to_nat amount) ++ skipn (N.to_nat address) (a_data a) in
   Ok {| a_data := d;
         a_text := adjust_text (a_text a) address amount false;
@@ -245,6 +271,62 @@ Definition allocate (a : archive) (address amount : N) (ge : bool) : outcome arc
         a_labels := adjust_labels (a_labels a) address amount false ge;
         a_cstrs := adjust_cstrs (a_cstrs a) address amount false;
         a_endian := a_endian a |}.
+
+(* The same operation as the code executes it: EVERY usize addition of the relocation - annotation keys (cells, label
+   addresses, c-string cells) and pointer targets - is [add_w 64] (Checked: overflow panics; Wrapping: wraps), the data is
+   spliced BEFORE the maps are relocated, and the result is the outcome together with the archive `&mut self` is left with:
+   after a panic in adjust_text / adjust_labels / adjust_pointers that is the spliced archive with the OLD maps [a1]; after a
+   panic in the c-string loop the maps have been replaced already [a2] (the c-string lists would be partially updated).
+   (Not extracted; equal to [allocate] for both modes on archives whose keys are <= size: BinRelocate.allocate_m_is_allocate.) *)
+Definition add_at (m : mode) (moved : bool) (x count : N) : outcome N := if moved then add_w 64 m x count else Ok x.
+Fixpoint relocate_keys_add {V} (m : mode) (mv : N -> bool) (count : N) (mp : amap V) : outcome (amap V) :=
+  match mp with
+  | [] => Ok []
+  | (k, v) :: r => k' <- add_at m (mv k) k count ;; r' <- relocate_keys_add m mv count r ;; Ok ((k', v) :: r')
+  end.
+Fixpoint relocate_list_add (m : mode) (mv : N -> bool) (count : N) (l : list N) : outcome (list N) :=
+  match l with
+  | [] => Ok []
+  | k :: r => k' <- add_at m (mv k) k count ;; r' <- relocate_list_add m mv count r ;; Ok (k' :: r')
+  end.
+Fixpoint relocate_cstrs_add (m : mode) (mv : N -> bool) (count : N) (c : list (bytes * list N)) : outcome (list (bytes * list N)) :=
+  match c with
+  | [] => Ok []
+  | (s, cells) :: r => cells' <- relocate_list_add m mv count cells ;; r' <- relocate_cstrs_add m mv count r ;; Ok ((s, cells') :: r')
+  end.
+Fixpoint adjust_pointers_add (m : mode) (ptrs : amap N) (address count : N) (ge : bool) : outcome (amap N) :=
+  match ptrs with
+  | [] => Ok []
+  | (source, destination) :: r =>
+    s' <- add_at m (address <=? source) source count ;;
+    d' <- add_at m (moves destination address ge) destination count ;;
+    r' <- adjust_pointers_add m r address count ge ;;
+    Ok ((s', d') :: r')
+  end.
+(* the part of the code after the checks *)
+Definition allocate_apply (m : mode) (a : archive) (address amount : N) (ge : bool) : outcome unit * archive :=
+  let a1 := set_data a (firstn (N.to_nat address) (a_data a) ++ zeros (N.to_nat amount) ++ skipn (N.to_nat address) (a_data a)) in
+  match (new_text <- relocate_keys_add m (fun k => address <=? k) amount (a_text a) ;;
+         new_labels <- relocate_keys_add m (fun k => moves k address ge) amount (a_labels a) ;;
+         new_pointers <- adjust_pointers_add m (a_ptrs a) address amount ge ;;
+         Ok (new_text, new_labels, new_pointers)) with
+  | Err e => (Err e, a1)
+  | Panic k => (Panic k, a1)
+  | Ok (new_text, new_labels, new_pointers) =>
+    let a2 := {| a_data := a_data a1; a_text := new_text; a_ptrs := new_pointers; a_labels := new_labels;
+                 a_cstrs := a_cstrs a; a_endian := a_endian a |} in
+    match relocate_cstrs_add m (fun k => address <=? k) amount (a_cstrs a) with
+    | Err e => (Err e, a2)
+    | Panic k => (Panic k, a2)
+    | Ok new_cstrs => (Ok tt, set_cstrs a2 new_cstrs)
+    end
+  end.
+Definition allocate_m (m : mode) (a : archive) (address amount : N) (ge : bool) : outcome unit * archive :=
+  match allocate_checks a address amount ge with
+  | Err e => (Err e, a)
+  | Panic k => (Panic k, a)
+  | Ok _ => allocate_apply m a address amount ge
+  end.
 
 Definition deallocate (a : archive) (address amount : N) (ge : bool) : outcome archive :=
   _ <- validate_address address (size a) false ;;
